@@ -483,7 +483,8 @@ class Impl:
             kind = "E notimpl"
         else:
             kind = "E other"
-        return f"F {int(e.address) if e.address is not None else '-'} {hx(e.instruction_repr)} {kind}"
+        ir = "fence" if e.instruction_repr.startswith("FENCE(") else e.instruction_repr   # FENCE has no assembler form (C14 excludes it)
+        return f"F {int(e.address) if e.address is not None else '-'} {hx(ir)} {kind}"
 
     def c_sim_step(self, a):
         try:
@@ -625,6 +626,58 @@ class Impl:
     def c_toy_asm(self, a):
         text = unhex(a[0]) if a[0] != "." else ""
         return load_outcome(lambda: self.toy.load_program(text), lambda: "ok")
+
+    SIM_GETTERS = ["get_register_entries", "get_data_memory_entries", "get_instruction_memory_entries", "get_data_cache_entries",
+                   "get_data_cache_stats", "get_instruction_cache_entries", "get_instruction_cache_stats", "get_output", "get_exit_code",
+                   "is_done", "has_instructions", "get_performance_metrics_str", "svg"]
+    TOY_GETTERS = ["get_register_representations", "get_memory_table_entries", "get_toy_svg_update_values", "is_done", "has_instructions",
+                   "get_performance_metrics_str"]
+
+    def sim_views(self, mask: int):
+        """Call the selected read-only inspection functions of the RISC-V simulation; returns their results."""
+        out = []
+        for i, g in enumerate(self.SIM_GETTERS):
+            if not (mask >> i) & 1:
+                continue
+            if g == "svg":
+                r = self.sim.get_riscv_five_stage_svg_update_values() if self.five else self.sim.get_riscv_single_stage_svg_update_values()
+            else:
+                r = getattr(self.sim, g)()
+            if g == "get_performance_metrics_str":
+                r = "\n".join(x for x in r.split("\n") if not x.startswith("execution time") and not x.startswith("instructions per second"))
+            elif g in ("get_data_cache_entries", "get_instruction_cache_entries") and r is not None:
+                r = [(s.index, s.replacement_status if not isinstance(s.replacement_status, list) else list(s.replacement_status),
+                      [(b.valid_bit, b.dirty_bit, b.tag, [tuple(x) for x in b.address_value_list]) for b in s.blocks]) for s in r.sets]
+            out.append((g, repr(r)))
+        return out
+
+    def toy_views(self, mask: int):
+        out = []
+        for i, g in enumerate(self.TOY_GETTERS):
+            if not (mask >> i) & 1:
+                continue
+            r = getattr(self.toy, g)()
+            if g == "get_performance_metrics_str":
+                r = "\n".join(x for x in r.split("\n") if not x.startswith("execution time") and not x.startswith("instructions per second"))
+            out.append((g, repr(r)))
+        return out
+
+    def c_sim_insp(self, a):
+        try:
+            self.sim_views(int(a[0]))
+            return "ok"
+        except Exception as e:
+            return f"X {type(e).__name__}"
+
+    def c_toy_insp(self, a):
+        try:
+            self.toy_views(int(a[0]))
+            return "ok"
+        except Exception as e:
+            return f"X {type(e).__name__}"
+
+    def c_rv_repr(self, a):
+        return instr_repr_hex(make_instr(a[0]))
 
     # -- formatter ------------------------------------------------------------------------------
     def c_fmt(self, a):
